@@ -87,7 +87,7 @@ def run_case(case):
         q = tuple(q)
         for retry in range(3):
             try:
-                p = tuple(fog.nearest_right(q) if kind == "nr" else fog.nearest_unknown(q))
+                p = tuple(fog.nearest_right(common.vary(q, True)) if kind == "nr" else fog.nearest_unknown(common.vary(q, True)))
                 res.emit("fog.%s %d %s" % (kind, fid, nibstr(q)), "p " + nibstr(p))
             except PerfectVisibility:
                 res.emit("fog.%s %d %s" % (kind, fid, nibstr(q)), "exn PerfectVisibility")
@@ -101,14 +101,14 @@ def run_case(case):
             cached = None
             if use_cache:
                 try:
-                    cached = cache.get(p)
+                    cached = cache.get(common.vary(p, True))
                     res.emit("fog.cget %s" % nibstr(p), "hit %d %s" % (regs[id(cached[0])], nibstr(cached[1])))
                 except KeyError:
                     res.emit("fog.cget %s" % nibstr(p), "miss")
             try:
                 if cached is None:
                     line = "hx.trav 0 %s" % nibstr(p)
-                    node = trie.traverse(p)
+                    node = trie.traverse(common.vary(p, True))
                 else:
                     line = "hx.travfrom 0 %d %s" % (regs[id(cached[0])], nibstr(cached[1]))
                     node = trie.traverse_from(cached[0], cached[1])
@@ -134,7 +134,7 @@ def run_case(case):
             return False
         subs = [tuple(s) for s in node.sub_segments]
         try:
-            fog = fog.explore(p, subs)
+            fog = fog.explore(common.vary(p, True), common.vary(subs))
             res.emit("fog.explore %d %s %s" % (fid, nibstr(p), plist(subs)), str(nfogs))
             fid = nfogs
             nfogs += 1
@@ -144,7 +144,7 @@ def run_case(case):
             return False
         if use_cache:
             if subs:
-                cache.add(p, node, subs)
+                cache.add(common.vary(p, True), node, common.vary(subs))
                 reg = len(regs)
                 res.emit("hx.reglast", str(reg))
                 regs[id(node)] = reg
